@@ -238,6 +238,12 @@ class Tracer:
         except Exception:
             pass
         if writing:
+            if ("w" in mode or "x" in mode) and not self.is_tmp(r):
+                # a permanent path was just created or emptied in place: a state a crash or a reader can see
+                self.event("copy", r)
+                px = _Proxy(self, f, r, mode)
+                px._wrote = True          # whatever reaches the file (write(), sendfile on the descriptor) ends at close
+                return px
             return _Proxy(self, f, r, mode)
         self.events.append(("read", r))
         return f
